@@ -214,6 +214,63 @@ fn not_connected_while_failing() {
     std::mem::forget(s);
 }
 
+/// The predicate is consulted for EVERY error, not only the first: a connection failure
+/// followed by an error that is not a connection failure ends the request with that error.
+#[kani::proof]
+#[kani::unwind(8)]
+#[kani::stub(std::time::Instant::now, tokio::model::std_instant_now)]
+#[kani::stub(ReconnectPolicy::delay_for_attempt, scripted_delay)]
+fn predicate_checked_for_every_error() {
+    gh().delays = [Duration::ZERO; 4];
+    let cfg = mk_cfg(2, true, true, None, Duration::ZERO);
+    let shared = ReconnectState::new();
+    let mut script = svc::any_script();
+    script.never = false;
+    script.immediate = true;
+    let (e0, e1): (u32, u32) = (kani::any(), kani::any());
+    kani::assume(reconnectable(e0) && !reconnectable(e1));
+    script.outcomes[0] = Err(e0);
+    script.outcomes[1] = Err(e1);
+    let mut s = ReconnectService::new(Inner::new(script), Arc::new(cfg), shared.clone());
+    let _ = svc::poll_ready_once(&mut s);
+    let mut fut = Box::pin(s.call(kani::any()));
+    let p = svc::poll_once(fut.as_mut());
+    assert!(mon().calls == 2, "[C16.retries_only_connection_failures] one retry after the connection failure, none after the other error");
+    assert!(matches!(p, Poll::Ready(Err(ReconnectError::ServiceError(InnerErr(x)))) if x == e1), "[C16.other_errors_pass] an error that is not a connection failure is returned at once, unchanged");
+    assert!(gh().pred_calls == 2, "[C16.predicate_every_error] the predicate classifies every inner error");
+    std::mem::forget(fut);
+    std::mem::forget(s);
+}
+
+/// The attempt budget belongs to the request: another request succeeding on a clone of the
+/// layer (shared published state) between two attempts does not give this request more attempts.
+#[kani::proof]
+#[kani::unwind(8)]
+#[kani::stub(std::time::Instant::now, tokio::model::std_instant_now)]
+#[kani::stub(ReconnectPolicy::delay_for_attempt, scripted_delay)]
+fn attempt_budget_is_per_request() {
+    let d = any_millis(10_000);
+    kani::assume(d > Duration::ZERO);
+    gh().delays = [d; 4];
+    let cfg = mk_cfg(2, false, true, Some(1), Duration::ZERO);
+    let shared = ReconnectState::new();
+    let mut script = svc::any_script();
+    script.never = false;
+    script.immediate = true;
+    script.outcomes = [Err(kani::any()), Err(kani::any()), Err(kani::any()), Err(kani::any())];
+    let mut s = ReconnectService::new(Inner::new(script), Arc::new(cfg), shared.clone());
+    let _ = svc::poll_ready_once(&mut s);
+    let mut fut = Box::pin(s.call(kani::any()));
+    assert!(svc::poll_once(fut.as_mut()).is_pending() && mon().calls == 1, "[C16.waits_policy_delay] a connection failure is followed by the policy's delay");
+    shared.mark_connected(); // another request on a clone succeeds meanwhile
+    model::advance(d);
+    let p = svc::poll_once(fut.as_mut());
+    assert!(mon().calls == 2, "[C16.bounded_attempts] at most max_attempts + 1 calls for one request");
+    assert!(matches!(p, Poll::Ready(Err(ReconnectError::MaxAttemptsExceeded { attempts: 2, .. }))), "[C16.exhausted_after_max] MaxAttemptsExceeded after max_attempts + 1 failed calls, whatever other requests did");
+    std::mem::forget(fut);
+    std::mem::forget(s);
+}
+
 /// KNOWN FINDING witness (C20 readiness): the retried call goes to a clone that never
 /// observed readiness.
 #[kani::proof]
